@@ -1,6 +1,6 @@
 """C02 - the reported workflow status is truthful about the tasks."""
 from ovf.props.common import batches, scale, ASSUME_SIM
-from ovf.workloads import conduct, mon  # noqa: F401
+from ovf.workloads import conduct, corpus, mon  # noqa: F401
 from ovf.props.sweeps import ctl_sweep  # noqa: F401
 
 LEVEL = "exploration"
@@ -31,6 +31,8 @@ def jobs(tier, seed):
     # fail commands with clean-up siblings under pause / cancel at every position
     js += batches("ctl_sweep", scale(tier, 40, 600), scale(tier, 4, 20), gen="dag", gseed=seed + 10, p_fail=0.35,
                   P=dict(p_fail_cmd=0.45, nmax=5, p_items=0.05, p_retry=0.05), modes=["cancel", "pause"], name="sweep-fail-commands")
+    # the repository's own fixture definitions under generated outcomes, schedules and requests
+    js += [dict(fn="corpus", parts=4, part=i, runs=scale(tier, 4, 40), gseed=seed, ctl=dict(req=0.08, max_req=3, crash=0.04, early_render=0.3), name="corpus") for i in range(4)]
     return js
 
 
